@@ -139,7 +139,8 @@ Definition mutual_openers (w : world) (p : pod) (t : term) (d : string) : bool :
 
 Definition aff_term_ok (w : world) (p : pod) (t : term) : bool :=
   let F := dom_of w p (t_key t) in
-  negb (Nat.eqb (length F) 0) &&
+  (* a node without the topology label is in no domain: nothing to check here (kube-scheduler itself
+     refuses such a node; the harness counts these placements) *)
   forallb (fun d => supported w p t d ||
                     (term_matches w p t p && negb (bound_usable_match w p t) && negb (mutual_openers w p t d))) F.
 
@@ -221,7 +222,7 @@ Definition sp_later_ok (w : world) (p : pod) (c : spreadc) (d : string) : bool :
 Definition spread_c_ok (w : world) (p : pod) (c : spreadc) : bool :=
   negb (sp_in_scope w p c) ||
   (let F := dom_of w p (s_key c) in
-   negb (Nat.eqb (length F) 0) && forallb (fun d => sp_ok w p c d || sp_later_ok w p c d) F).
+   forallb (fun d => sp_ok w p c d || sp_later_ok w p c d) F).
 
 Definition spread_ok_b (w : world) : bool :=
   forallb (fun p => negb (p_new p) || forallb (spread_c_ok w p) (p_spread p)) (w_pods w).
